@@ -260,7 +260,8 @@ theorem asU32_of_lt (m : Nat) (h : m < 4294967296) : asU32 m = m := by
 
 /-- the flattened `Range` loop started at or before a stopper at `sentinel` (a value inside the window):
     all raw reads in range, terminates at some `j ∈ [i, sentinel]`, or panics on the checked
-    `links_blocked[..]` -/
+    `links_blocked[..]`.  (Only explicit rewriting below: a kernel defeq check that wanders into
+    `wrapSub`'s `% 2^64` does not come back.) -/
 theorem scanRange_spec (path blocked : List Nat) (mn df sentinel : Nat) (hs : sentinel < path.length)
     (hstop : ¬ wrapSub path[sentinel] mn > df) :
     ∀ (f i : Nat), i ≤ sentinel → sentinel - i < f →
@@ -273,8 +274,7 @@ theorem scanRange_spec (path blocked : List Nat) (mn df sentinel : Nat) (hs : se
     intro i hi hf
     have hil : i < path.length := by omega
     unfold scanRange
-    rw [rawGet_of_lt path i hil]
-    simp only [bind_ok]
+    rw [rawGet_of_lt path i hil, bind_ok]
     by_cases hw : wrapSub path[i] mn > df
     · rw [if_pos hw]
       have hne : i ≠ sentinel := by
@@ -288,9 +288,9 @@ theorem scanRange_spec (path blocked : List Nat) (mn df sentinel : Nat) (hs : se
       · rw [if_neg his]
         unfold chkGet
         cases hb : blocked[path[i]]? with
-        | none => right; rfl
+        | none => right; rw [bind_fault]
         | some b =>
-          simp only [bind_ok]
+          rw [bind_ok]
           by_cases hb0 : b ≠ 0
           · rw [if_pos hb0]; left; exact ⟨i, rfl, le_refl _, hi⟩
           · rw [if_neg hb0]
@@ -353,17 +353,17 @@ theorem findTrainIntersect_spec (split sentinel : Nat) (t : LinkOpt) (path block
     left; exact ⟨j, rfl, hj1, hj2⟩
   | range mn df =>
     have hmn := ht mn df rfl
-    simp only [rawGet_of_lt path sentinel h2, rawSet_of_lt path sentinel _ h2, bind_ok]
     have hl : (path.set sentinel (asU32 mn)).length = path.length := List.length_set
     have hs' : sentinel < (path.set sentinel (asU32 mn)).length := by omega
     have hstop : ¬ wrapSub (path.set sentinel (asU32 mn))[sentinel] mn > df := by
       rw [List.getElem_set_self, asU32_of_lt mn hmn, wrapSub_self]; omega
+    simp only []
+    rw [rawGet_of_lt path sentinel h2, bind_ok, rawSet_of_lt path sentinel _ h2, bind_ok]
     rcases scanRange_spec (path.set sentinel (asU32 mn)) blocked mn df sentinel hs' hstop
         (path.length + 1) split (by omega) (by omega) with ⟨j, e, hj1, hj2⟩ | e
-    · rw [e]
-      simp only [bind_ok, rawSet_of_lt _ sentinel _ hs', set_set_self path sentinel _ h2]
+    · rw [e, bind_ok, rawSet_of_lt _ sentinel _ hs', bind_ok, set_set_self path sentinel _ h2]
       left; exact ⟨j, rfl, hj1, hj2⟩
-    · rw [e]; right; left; rfl
+    · rw [e, bind_fault]; right; left; rfl
   | check =>
     rcases scanCheck_spec path blocked sentinel h2 (path.length + 1) split (by omega) (by omega) with
       ⟨j, e, hj1, hj2⟩ | e
